@@ -39,6 +39,10 @@ Proof. exact ParseProofs.parse_no_panic. Qed.
 Theorem C18_guard_conservative : forall s e, parse_unguarded s = Ok e -> parse s = Ok e.
 Proof. exact ParseProofs.parse_guard_conservative. Qed.
 
+(* on every input string the tokenizer hands the option parser proper tokens only (non-empty, blank-free) *)
+Theorem C18_fields_tokens : forall s, Forall token (fields s).
+Proof. exact ParseProofs.fields_all_tokens. Qed.
+
 Print Assumptions C18_parse_render.
 Print Assumptions C18_int_option_value.
 Print Assumptions C18_str_option_value.
@@ -46,3 +50,4 @@ Print Assumptions C18_convert_roundtrip.
 Print Assumptions C18_key_agreement.
 Print Assumptions C18_no_panic.
 Print Assumptions C18_guard_conservative.
+Print Assumptions C18_fields_tokens.
